@@ -192,6 +192,45 @@ type replayFile struct {
 	Note     string          `json:"note,omitempty"`
 }
 
+// runEnum drives an enumerated (non-random) list of cases through the same
+// journaling / replay / statistics protocol as runCheck. It stops at the first
+// violation.
+func runEnum[C any](t *testing.T, id string, cases []C, exec func(C) *Outcome) {
+	if os.Getenv("VERIF_REPLAY") != "" {
+		runCheck(t, id, func(*rapid.T) C { var c C; return c }, exec)
+		return
+	}
+	st := newStats(id)
+	st.Test = t.Name()
+	defer st.write()
+	shard, shards := 0, 1
+	fmt.Sscan(os.Getenv("VERIF_SHARD"), &shard)
+	fmt.Sscan(os.Getenv("VERIF_SHARDS"), &shards)
+	if shards < 1 {
+		shards = 1
+	}
+	for i, c := range cases {
+		if i%shards != shard {
+			continue
+		}
+		cj, _ := json.Marshal(c)
+		wrapped, _ := json.Marshal(replayFile{Property: id, Test: t.Name(), Case: cj})
+		writeFileAtomic(filepath.Join(outDir(), "current-"+id+".json"), wrapped)
+		o := exec(c)
+		st.record(cj, o)
+		if o.Inconclusive || o.Known != "" {
+			continue
+		}
+		if o.Err != nil {
+			st.Violations++
+			st.Failure = o.Err.Error()
+			writeFileAtomic(filepath.Join(outDir(), "failing-"+id+".json"), wrapped)
+			t.Fatalf("property %s violated on enumerated case %d: %v", id, i, o.Err)
+		}
+	}
+	st.Extra["enumerated_cases_total"] = len(cases)
+}
+
 func sortedKeys[V any](m map[string]V) []string {
 	ks := make([]string, 0, len(m))
 	for k := range m {
